@@ -428,6 +428,84 @@ theorem writes_before_first_poll_of_linked (cfg : Cfg) (fuel : Nat) (sched : Lis
   obtain ⟨t, ht, hm, hcnt⟩ := hl c hc p hp
   exact writes_before_first_poll_partial cfg fuel sched pick herr t c.name p ht hm hcnt
 
+/-- **the link between the configuration and the node** (the hypothesis `Linked` discharged): in every node that came
+up, for the module list the clause is judged on — the modules the configuration describes (declared ones, products of
+the statically declared Pinatas, automatic communicators) that exist in the node, with distinct names and distinct
+parameter names —, every module with a configured start value has become a module object with exactly the parameters of
+its description and is registered with a poll thread that is started.  Behind it: `LI`, an invariant of `get_module` /
+`create_modules` (every module object is made from a description of the configuration — only its `io` attachment is
+filled in — or is an automatic communicator of `ioDict`; `Module.initModule` registers a module that has something to
+poll or to write with the poll thread of a module of the node), `core_nothing_created_late` and `core_all_inited`. -/
+theorem configuration_linked (cfg : Cfg) (fuel : Nat) (sched : List Act) (pick : List Name → Nat)
+    (hsp : StaticPinatas cfg)
+    (hoof : (run cfg fuel sched pick).st.oof = false) (herr : (run cfg fuel sched pick).st.errors = [])
+    (hnd : (names (allMods cfg (run cfg fuel sched pick).st.ioDict)).Nodup)
+    (hpn : ∀ c ∈ allMods cfg (run cfg fuel sched pick).st.ioDict, (c.params.map (·.name)).Nodup) :
+    Linked ((allMods cfg (run cfg fuel sched pick).st.ioDict).filter
+      (fun c => (run cfg fuel sched pick).st.modules.contains c.name)) (run cfg fuel sched pick).st := by
+  rw [(run_log cfg fuel sched pick).1] at hoof herr hnd hpn ⊢
+  obtain ⟨hst, hcore⟩ := startup_core cfg fuel herr
+  rw [hst] at hoof hnd hpn ⊢
+  intro c hc p hp
+  obtain ⟨hcA, hcm⟩ := List.mem_filter.mp hc
+  have hm : c.name ∈ (core cfg fuel).modules := by simpa using hcm
+  obtain ⟨hsim, hreg⟩ := linked_core cfg hsp fuel hcore hoof hnd c hcA hm
+  have hw : c.writes = startParams c := (handle_writes_registers_start_values c).2
+  have hpw : p ∈ c.writes := by rw [hw]; exact hp
+  obtain ⟨t, ht, hmem⟩ := hreg (needsPoll_of_writes c p hpw)
+  refine ⟨t, ht, hmem, ?_⟩
+  rw [writes_of_params hsim.2.2.2.1]
+  have hle := List.nodup_iff_count.mp (writes_nodup c (hpn c hcA)) p
+  have hpos := List.count_pos_iff.mpr hpw
+  omega
+
+/-- "configured start values are written before the first poll", the clause of the specification itself on the whole
+log, against the module list of the **configuration**: every configuration with statically declared Pinatas (any
+attachment graph, shared and automatic communicators, declaration order), every fuel, every schedule of start loop /
+poll threads / clock, every choice function, **any faults** in writes, initial reads and first polls — in every node that
+came up, every configured start value of every described module is handed to its write method exactly once, and never
+after the first poll of that module.  This is `writes_before_first_poll_statement` with the one additional hypothesis
+`StaticPinatas` (no module produced by a Pinata is a Pinata itself — the assumption under which the Spec's `allMods` is
+the module list of the node). -/
+theorem writes_before_first_poll (cfg : Cfg) (fuel : Nat) (sched : List Act) (pick : List Name → Nat)
+    (hsp : StaticPinatas cfg)
+    (hoof : (run cfg fuel sched pick).st.oof = false) (herr : (run cfg fuel sched pick).st.errors = [])
+    (hnd : (names (allMods cfg (run cfg fuel sched pick).st.ioDict)).Nodup)
+    (hpn : ∀ c ∈ allMods cfg (run cfg fuel sched pick).st.ioDict, (c.params.map (·.name)).Nodup) :
+    WritesBeforeFirstPoll ((allMods cfg (run cfg fuel sched pick).st.ioDict).filter
+      (fun c => (run cfg fuel sched pick).st.modules.contains c.name)) (run cfg fuel sched pick).log :=
+  writes_before_first_poll_of_linked cfg fuel sched pick herr _
+    (configuration_linked cfg fuel sched pick hsp hoof herr hnd hpn)
+
+/-- "configured start values are written": in every node that came up, whatever a write method of a described module is
+handed at start-up is the configured start value of that parameter (same quantification as `writes_before_first_poll`) -/
+theorem start_values_handed_over (cfg : Cfg) (fuel : Nat) (sched : List Act) (pick : List Name → Nat)
+    (hsp : StaticPinatas cfg)
+    (hoof : (run cfg fuel sched pick).st.oof = false) (herr : (run cfg fuel sched pick).st.errors = [])
+    (hnd : (names (allMods cfg (run cfg fuel sched pick).st.ioDict)).Nodup)
+    (hpn : ∀ c ∈ allMods cfg (run cfg fuel sched pick).st.ioDict, (c.params.map (·.name)).Nodup) :
+    StartValuesHandedOver ((allMods cfg (run cfg fuel sched pick).st.ioDict).filter
+      (fun c => (run cfg fuel sched pick).st.modules.contains c.name))
+      (writtenOf (run cfg fuel sched pick).st (run cfg fuel sched pick).log) := by
+  have hlink : ∀ c ∈ (allMods cfg (run cfg fuel sched pick).st.ioDict).filter
+      (fun c => (run cfg fuel sched pick).st.modules.contains c.name),
+      (cfgOf (run cfg fuel sched pick).st c.name).params = c.params := by
+    rw [(run_log cfg fuel sched pick).1] at hoof herr hnd ⊢
+    obtain ⟨hst, hcore⟩ := startup_core cfg fuel herr
+    rw [hst] at hoof hnd ⊢
+    intro c hc
+    obtain ⟨hcA, hcm⟩ := List.mem_filter.mp hc
+    exact (linked_core cfg hsp fuel hcore hoof hnd c hcA (by simpa using hcm)).1.2.2.2.1
+  intro c hc q hq hw v hv w hwm h1 h2
+  have hobj := start_values_handed_over_objects (run cfg fuel sched pick).st (run cfg fuel sched pick).log [c.name]
+    (by
+      intro m hm
+      have : m = c.name := by simpa using hm
+      rw [this, hlink c hc]
+      exact hpn c (List.mem_filter.mp hc).1)
+  exact hobj (objOf (run cfg fuel sched pick).st c.name) (by simp) q (by show q ∈ (cfgOf _ c.name).params; rw [hlink c hc]; exact hq)
+    hw v hv w hwm h1 h2
+
 /-- the hypotheses are met by a node with a shared communicator, a failing write, a communication failure in the initial
 reads of the first member and in the first poll of the second, under a schedule that preempts the start loop -/
 def wpU : ModCfg := { (default : ModCfg) with name := "u", cls := .hasio, poll := true, params := [wp "w0", wp "w1"], atts := [⟨"io", some "c", false, 0⟩], writeFail := [("w0", "HardwareError")], readsFail := some "CommunicationFailedError" }
@@ -521,6 +599,16 @@ theorem comm_failure_writes_made_up :
     WritesBeforeFirstPoll [cfA, cfB] (run cfCfg 20 [] (fun _ => 0)).log ∧
     judge cfCfg ⟨(run cfCfg 20 [] (fun _ => 0)).st.modules, [], (run cfCfg 20 [] (fun _ => 0)).log, [],
       writtenOf (run cfCfg 20 [] (fun _ => 0)).st (run cfCfg 20 [] (fun _ => 0)).log⟩ = [] := by
+  decide +kernel
+
+/-- the hypotheses are met by the configuration of the former finding (shared communicator, a communication failure) and
+by the sample configuration (Pinata, dynamic module) -/
+example : StaticPinatas cfCfg ∧ (run cfCfg 20 [] (fun _ => 0)).st.oof = false ∧
+    (run cfCfg 20 [] (fun _ => 0)).st.errors = [] ∧
+    (names (allMods cfCfg (run cfCfg 20 [] (fun _ => 0)).st.ioDict)).Nodup ∧
+    (∀ c ∈ allMods cfCfg (run cfCfg 20 [] (fun _ => 0)).st.ioDict, (c.params.map (·.name)).Nodup) ∧
+    startParams cfB = ["w0"] := by
+  refine ⟨by unfold StaticPinatas; decide, ?_⟩
   decide +kernel
 
 /-- `Linked` is met by the configuration of the former finding (so `writes_before_first_poll_of_linked` gives the clause
